@@ -291,6 +291,16 @@ func init() {
 			if s.Op == "uf" && s.Name == "be64" && nbytes == 8 {
 				return s.Args[0]
 			}
+			if !e.exactBE && nbytes == 8 {
+				if c, ok := goStr(s); ok && len(c) >= 8 {
+					var v uint64
+					for i := 0; i < 8; i++ {
+						v = v<<8 | uint64(c[i])
+					}
+					return BVConst(v, 64)
+				}
+				return UF("unbe64", BVS(64), StrSubstr(s, IntConst(0), IntConst(8)))
+			}
 			for i := 0; i < nbytes; i++ {
 				bs = append(bs, StrCodeBV8(StrAt(s, IntConst(int64(i)))))
 			}
@@ -366,8 +376,22 @@ func init() {
 	})
 }
 
-// be64 gives the 8 big-endian bytes of a word as a Vec-mode slice (exact).
+// be64 gives the 8 big-endian bytes of a word: by default an abstract injective encoding (UF be64 with inverse
+// unbe64 and fixed length 8); with verif.ExactBigEndian(true) the exact bytes as a Vec-mode slice.
 func (e *Engine) be64(v *T) Value {
+	if !e.exactBE {
+		if v.IsConst() {
+			var b [8]byte
+			for i := 0; i < 8; i++ {
+				b[i] = byte(v.BV >> uint(8*(7-i)))
+			}
+			return StrConst(string(b[:]))
+		}
+		t := UF("be64", StrS, v)
+		t.FixLen = 8
+		e.addAxiom(fmt.Sprintf("be64:%d", v.id), And(Eq(UF("unbe64", BVS(64), t), v), Eq(mk("str.len", IntS, t), IntConst(8))))
+		return t
+	}
 	vals := make([]Value, 8)
 	for i := 0; i < 8; i++ {
 		hi := 8*(8-i) - 1
